@@ -103,3 +103,19 @@ Fixpoint tables_same (t : list (list (Z * nat))) (h : list (list float)) : bool 
   | r :: t', hr :: h' => floats_same (dec_row (T:=float) r) hr && tables_same t' h'
   | _, _ => false
   end.
+
+(* one grid point of hermes.CalculateDayLenght: values, the arguments the harness passed to math.Asin, observed hours.
+   1 = a day length differs, 2 = the model passes another argument to asin *)
+Record dl_obs := { dlo_in : dl_in (T:=float); dlo_a0 : float; dlo_a1 : float; dlo_a2 : float;
+                   dlo_dl : float; dlo_dle : float; dlo_dlp : float }.
+Definition dl_check (o : dl_obs) : nat :=
+  let '(a0, a1, a2) := dl_args (dlo_in o) in
+  let '(dl, dle, dlp) := daylengths (dlo_in o) in
+  ((if float_same dl (dlo_dl o) && float_same dle (dlo_dle o) && float_same dlp (dlo_dlp o) then 0 else 1)
+   + (if float_same a0 (dlo_a0 o) && float_same a1 (dlo_a1 o) && float_same a2 (dlo_a2 o) then 0 else 2))%nat.
+Fixpoint dl_mismatches (i : nat) (l : list dl_obs) : list (nat * nat) :=
+  match l with
+  | [] => []
+  | c :: r => let v := dl_check c in
+              if Nat.eqb v 0 then dl_mismatches (S i) r else (i, v) :: dl_mismatches (S i) r
+  end.
